@@ -1266,6 +1266,9 @@ func checkModularIndices(p *Prog, r *Report) {
 			okS := false
 			if st.Rhs != nil {
 				t := p.Term(st.Rhs)
+				if t.Op != "%" {
+					t = normTerm(p.ExpandHelpers(t)) // ringNext(x) = (x + 1) % N
+				}
 				if t.Op == "%" && t.Args[1].IsConst() && t.Args[1].Int == n {
 					okS = true
 				}
